@@ -123,6 +123,7 @@ fn removal_check(
     report: bool,
     take: Option<usize>,
     returned: Option<&[usize]>,
+    first: Option<usize>,
 ) -> Option<String> {
     // the jobs the call decides about, in the order of the indices ("Jobs are iterated in the order of indices")
     let mut removed: Vec<usize> = vec![];
@@ -132,7 +133,8 @@ fn removal_check(
             break;
         }
         visited.push(i);
-        if pred.eval(i, j) {
+        // `first`: a closure that counts selects only the first so many jobs its predicate accepts
+        if pred.eval(i, j) && first.map(|k| removed.len() < k).unwrap_or(true) {
             removed.push(i);
         }
     }
@@ -1375,7 +1377,27 @@ fn run_case(case: &str) -> (String, String, String) {
                     }
                     d
                 });
-                doc = removal_check(&before_list, &l, pred, report, None, None);
+                doc = removal_check(&before_list, &l, pred, report, None, None, None);
+                "-".into()
+            }
+            ["rmfirst", k, pr, r] => {
+                // `remove_if` with an `FnMut` closure that has its own state: "remove the first k jobs that …"
+                let (Ok(k), Some(pred), Some(report)) = (k.parse::<usize>(), parse_pred(pr), parse_bool(r)) else {
+                    return ("bad-case".into(), "-".into(), String::new());
+                };
+                let before_list = l.clone();
+                let mut left = k;
+                l.remove_if(|i, mut j| {
+                    let d = left > 0 && pred.eval(i, &j);
+                    if d {
+                        left -= 1;
+                    }
+                    if report {
+                        j.state_reported();
+                    }
+                    d
+                });
+                doc = removal_check(&before_list, &l, pred, report, None, None, Some(k));
                 "-".into()
             }
             ["xif", pr, r] => {
@@ -1393,7 +1415,7 @@ fn run_case(case: &str) -> (String, String, String) {
                     })
                     .map(|(i, _)| i)
                     .collect();
-                doc = removal_check(&before_list, &l, pred, report, None, Some(&v));
+                doc = removal_check(&before_list, &l, pred, report, None, Some(&v), None);
                 v.iter().map(|i| i.to_string()).collect::<Vec<_>>().join(".")
             }
             ["xtake", n, pr, r] => {
@@ -1414,7 +1436,7 @@ fn run_case(case: &str) -> (String, String, String) {
                     .take(n)
                     .map(|(i, _)| i)
                     .collect();
-                doc = removal_check(&before_list, &l, pred, report, Some(n), Some(&v));
+                doc = removal_check(&before_list, &l, pred, report, Some(n), Some(&v), None);
                 v.iter().map(|i| i.to_string()).collect::<Vec<_>>().join(".")
             }
             ["add", p, st] => {
@@ -1593,7 +1615,7 @@ fn alphabet() -> Vec<String> {
     for o in [
         "rmif done 0", "rmif done 1", "rmif chg 0", "rmif susp 0", "rmif run 1", "rmif m3 0", "rmif m5 0", "rmif m6 0",
         "rmif m7 1", "rmif m12 0", "xif m3 0", "xif m6 1", "xif alive 0", "xtake 1 done 0", "xtake 1 all 1", "xtake 2 m7 0",
-        "add 101 R", "add 102 S20", "rep1 0", "rep1 2",
+        "add 101 R", "add 102 S20", "rep1 0", "rep1 2", "rmfirst 1 all 0", "rmfirst 2 run 1", "rmfirst 1 done 0",
     ] {
         ops.push(o.into());
     }
@@ -1731,7 +1753,8 @@ fn random_pred(r: &mut Rng, npids: usize) -> String {
 fn random_api3_op(r: &mut Rng, npids: usize) -> String {
     let p = 101 + r.below(npids);
     match r.below(10) {
-        0 | 1 | 2 | 3 => format!("rmif {} {}", random_pred(r, npids), r.below(2)),
+        0 | 1 | 2 => format!("rmif {} {}", random_pred(r, npids), r.below(2)),
+        3 => format!("rmfirst {} {} {}", r.below(4), random_pred(r, npids), r.below(2)),
         4 | 5 => format!("xif {} {}", random_pred(r, npids), r.below(2)),
         6 | 7 => format!("xtake {} {} {}", r.below(4), random_pred(r, npids), r.below(2)),
         8 => format!("add {p} {}", r.pick(&["R", "S20", "S19", "R"])),
@@ -1871,9 +1894,14 @@ fn main() {
             }
             let case = if hist.is_empty() { op.clone() } else { format!("{hist}; {op}") };
             let marked = format!("@ {case}");
-            let (obs, oracle, nkey) = run_guarded(&marked);
             edges += 1;
-            if edges % o.shard.1 == o.shard.0 {
+            let mine = edges % o.shard.1 == o.shard.0;
+            // the histories of the last level are not extended: a shard runs only the ones it emits
+            if !mine && d + 1 >= depth {
+                continue;
+            }
+            let (obs, oracle, nkey) = run_guarded(&marked);
+            if mine {
                 emit_case(&marked, &obs, &oracle);
             }
             if seen.insert(nkey.clone()) {
@@ -1898,9 +1926,14 @@ fn main() {
             }
             let case = if hist.is_empty() { op.clone() } else { format!("{hist}; {op}") };
             let marked = format!("@ {case}");
-            let (obs, oracle, nkey) = run_guarded(&marked);
             edges += 1;
-            if edges % o.shard.1 == o.shard.0 {
+            let mine = edges % o.shard.1 == o.shard.0;
+            // the histories of the last level are not extended: a shard runs only the ones it emits
+            if !mine && d + 1 >= depth2 {
+                continue;
+            }
+            let (obs, oracle, nkey) = run_guarded(&marked);
+            if mine {
                 emit_case(&marked, &obs, &oracle);
             }
             if seen.insert(nkey.clone()) {
